@@ -10,6 +10,8 @@ import sys
 
 script, n, signame, sitefile = sys.argv[1], int(sys.argv[2]), sys.argv[3], sys.argv[4]
 sig = getattr(signal, "SIG" + signame)
+# optional escalation: a second signal n2 traced lines after the first one (TERM, then KILL)
+n2, sig2 = (int(sys.argv[5]), getattr(signal, "SIG" + sys.argv[6])) if len(sys.argv) > 6 else (0, None)
 count = 0
 fired = False
 TRACED = ("experimaestro/run.py", "sim/rtasks.py")
@@ -35,9 +37,17 @@ def local(frame, event, arg):
             code = frame.f_code
             with open(sitefile, "w") as f:
                 f.write("%s:%s+%d\n" % (os.path.basename(code.co_filename), code.co_name, frame.f_lineno - code.co_firstlineno))
-            sys.settrace(None)
+            if sig2 is None:
+                sys.settrace(None)
             os.kill(os.getpid(), sig)
-            return None
+            return None if sig2 is None else local
+    elif event == "line" and sig2 is not None:
+        count += 1
+        if count == n + n2:
+            code = frame.f_code
+            with open(sitefile + ".2", "w") as f:
+                f.write("%s:%s+%d\n" % (os.path.basename(code.co_filename), code.co_name, frame.f_lineno - code.co_firstlineno))
+            os.kill(os.getpid(), sig2)
     return local
 
 
@@ -52,14 +62,29 @@ def report():
     if n == 0:
         with open(sitefile, "w") as f:
             f.write("count:%d\n" % count)
+    elif sig2 is not None:
+        with open(sitefile + ".count", "w") as f:
+            f.write("%d\n" % count)
 
+
+if sig2 is not None:
+    # A Python-level signal handler that is invoked while the trace function runs (our own
+    # os.kill) is not traced.  Handlers installed by the traced program are wrapped so that they
+    # run with tracing enabled: their lines are the kill points of the second signal.
+    _signal = signal.signal
+
+    def _traced_signal(signum, handler):
+        if callable(handler):
+            return _signal(signum, lambda s, f: sys.call_tracing(handler, (s, f)))
+        return _signal(signum, handler)
+
+    signal.signal = _traced_signal
 
 import atexit  # noqa: E402
 
 atexit.register(report)
 sys.argv = [script]
 sys.settrace(tracer)
-try:
-    runpy.run_path(script, run_name="__main__")
-finally:
-    sys.settrace(None)
+# (the trace function stays installed when the script ends: the exit-time callbacks of the
+# runner - pid file removal, lock release, end-of-job report - are kill points too)
+runpy.run_path(script, run_name="__main__")
